@@ -137,6 +137,8 @@ func (n *vcNode) guarded(f func()) {
 				n.panicked = "+2/3 prevoted for an invalid block"
 			case vcContains(msg, "expected ProposalBlockParts header to be commit header"):
 				n.panicked = "parts header differs from commit header"
+			case vcContains(msg, "BlockStore can only save complete block part sets"):
+				n.panicked = "incomplete part set at commit"
 			default:
 				if len(msg) > 80 {
 					msg = msg[:80]
@@ -1035,11 +1037,13 @@ func (net *vcNet) candidates(rng *rand.Rand) []vcCand {
 			}
 			cands = append(cands, vcCand{vcStep{Name: "Deliver", N: nn, M: vcMsg{T: "block", Src: "-", R: -1, V: name, Pol: -2}}, w})
 		}
-		// +2/3 claims (VoteSetMaj23) from any peer, true or not, for rounds around the current one
+		// +2/3 claims (VoteSetMaj23) of the FAULTY validators, true or not, for rounds around the current one.
+		// (A correct peer only claims what it has; a vote set keeps one claim per peer, so a false claim
+		// attributed to a correct peer would block that peer's later true claim — not a behaviour of the system.)
 		if len(blocks) > 0 {
 			for k := 0; k < 2; k++ {
 				src := net.names[rng.Intn(len(net.names))]
-				if src == nn {
+				if src == nn || !net.byz[src] {
 					continue
 				}
 				r := int(cs.Round) - rng.Intn(2)
